@@ -51,6 +51,7 @@ func main() {
 	hashPrefixFindings(o, r)
 	singleListCampaign(o, r, m)
 	hashPrefixCampaign(o, r, m)
+	collisionCampaign(o, r, m)
 	customCampaign(o, r, m)
 	storageCampaign(o, r)
 	concurrentCampaign(o, r)
@@ -382,6 +383,7 @@ type storeOpts struct {
 	ruleLists []string
 	services  bool
 	safe      bool
+	yt        bool // the YouTube safe-search filter as well (its own list and cache)
 	adult     *hashprefix.Filter
 	danger    *hashprefix.Filter
 	mgr       *collectMgr
@@ -417,6 +419,19 @@ func newStore(o storeOpts) (s *store) {
 	hlib.Must(os.WriteFile(filepath.Join(dir, "index.json"), idx, 0o644))
 	hlib.Must(os.WriteFile(filepath.Join(dir, "services.json"), []byte(`{"blocked_services":[]}`), 0o644))
 
+	ytConf := &filterstorage.ConfigSafeSearch{ID: filter.IDYoutubeSafeSearch, Enabled: false}
+	if o.yt {
+		ytConf = &filterstorage.ConfigSafeSearch{
+			URL:              &url.URL{Scheme: "http", Host: "127.0.0.1:1", Path: "/yt"},
+			ID:               filter.IDYoutubeSafeSearch,
+			MaxSize:          1 << 20,
+			ResultCacheTTL:   time.Hour,
+			RefreshTimeout:   time.Second,
+			Staleness:        farStale,
+			ResultCacheCount: o.cacheCnt,
+			Enabled:          true,
+		}
+	}
 	c := &filterstorage.Config{
 		BaseLogger: slogutil.NewDiscardLogger(),
 		Logger:     slogutil.NewDiscardLogger(),
@@ -452,7 +467,7 @@ func newStore(o storeOpts) (s *store) {
 			ResultCacheCount: o.cacheCnt,
 			Enabled:          o.safe,
 		},
-		SafeSearchYouTube: &filterstorage.ConfigSafeSearch{ID: filter.IDYoutubeSafeSearch, Enabled: false},
+		SafeSearchYouTube: ytConf,
 		CacheManager:      s.mgr,
 		Clock:             agdtime.SystemClock{},
 		ErrColl:           s.errs,
@@ -567,6 +582,7 @@ func genRules(rng *rand.Rand, kinds []string, withClient bool) (rs []rule) {
 type slOp struct {
 	kind   string // refresh q qr hold qh
 	rules  []rule
+	rules2 []rule // mode ss2: the YouTube safe-search list
 	ver    int
 	client string
 	host   string
@@ -583,6 +599,13 @@ func (op slOp) String() string {
 			toks = append(toks, ru.tok())
 		}
 
+		if op.rules2 != nil {
+			toks = append(toks, "/ youtube:")
+			for _, ru := range op.rules2 {
+				toks = append(toks, ru.tok())
+			}
+		}
+
 		return fmt.Sprintf("refresh v%d %s", op.ver, strings.Join(toks, " "))
 	case "q":
 		return fmt.Sprintf("q %s %s qt=%d p%d edns=%v", op.client, op.host, op.qt, op.prof, op.edns)
@@ -597,46 +620,69 @@ func (op slOp) String() string {
 
 func singleListCampaign(o *hlib.Opts, r *hlib.Result, m *hlib.Model) {
 	rng := o.Rand("single-list")
-	n := 300
+	n := 350
 	if o.Thorough() {
-		n = 2400
+		n = 2800
 	}
 	for i := 0; i < n; i++ {
-		mode := []string{"rl", "svc", "ss"}[i%3]
-		withClient := mode != "ss" && rng.IntN(4) == 0
+		mode := []string{"rl", "svc", "ss", "rl", "svc", "ss", "ss2"}[i%7]
+		withClient := !isSS(mode) && rng.IntN(4) == 0
 		capn := []int{1, 2, 3, 100}[rng.IntN(4)]
-		length := 10 + rng.IntN(50)
-		ops := genSingleList(rng, mode, withClient, length)
-		fails := runSingleList(r, m, mode, capn, withClient, ops, true)
-		if fails != "" {
-			// Shrink the failing history for the replay.
-			min := hlib.Shrink(ops, func(c []slOp) bool {
-				return len(c) > 0 && c[0].kind == "refresh" && runSingleList(r, m, mode, capn, withClient, c, false) == fails
-			})
-			runSingleList(r, m, mode, capn, withClient, min, true)
-		}
+		oneSingleList(r, m, rng, mode, capn, withClient, 10+rng.IntN(50))
 	}
 	if o.Thorough() {
 		exhaustiveSingleList(r, m)
 	}
 }
 
+// oneSingleList generates and runs one single-filter history and shrinks it
+// when it fails.
+func oneSingleList(r *hlib.Result, m *hlib.Model, rng *rand.Rand, mode string, capn int, withClient bool, length int) (fails string) {
+	ops := genSingleList(rng, mode, withClient, length)
+	nv, nd := len(r.Violations), len(r.Disagreements)
+	fails = runSingleList(r, m, mode, capn, withClient, ops, true)
+	if fails != "" {
+		// Shrink the failing history for the replay.
+		min := hlib.Shrink(ops, func(c []slOp) bool {
+			return len(c) > 0 && c[0].kind == "refresh" && runSingleList(r, m, mode, capn, withClient, c, false) == fails
+		})
+		// Report the shrunk history instead of the original one.
+		r.Violations, r.Disagreements = r.Violations[:nv], r.Disagreements[:nd]
+		runSingleList(r, m, mode, capn, withClient, min, true)
+	}
+
+	return fails
+}
+
+// isSS reports whether the mode is one of the safe-search modes: "ss" (the
+// general filter alone) or "ss2" (the general and the YouTube filter together,
+// each with its own list and its own result cache).
+func isSS(mode string) bool { return mode == "ss" || mode == "ss2" }
+
 func genSingleList(rng *rand.Rand, mode string, withClient bool, length int) (ops []slOp) {
 	kinds := []string{"B", "B", "A", "H", "T"}
-	if mode == "ss" {
+	if isSS(mode) {
 		kinds = []string{"R"}
 	} else if mode == "svc" {
 		kinds = []string{"B", "B", "A", "T"}
 	}
 	ver := 1
 	held := false
-	ops = append(ops, slOp{kind: "refresh", ver: ver, rules: genRules(rng, kinds, withClient)})
+	refresh := func() slOp {
+		op := slOp{kind: "refresh", ver: ver, rules: genRules(rng, kinds, withClient)}
+		if mode == "ss2" {
+			op.rules2 = append([]rule{}, genRules(rng, kinds, false)...)
+		}
+
+		return op
+	}
+	ops = append(ops, refresh())
 	for len(ops) < length {
 		switch x := rng.IntN(20); {
 		case x < 3:
 			ver++
-			ops = append(ops, slOp{kind: "refresh", ver: ver, rules: genRules(rng, kinds, withClient)})
-		case x < 6 && mode != "ss":
+			ops = append(ops, refresh())
+		case x < 6 && !isSS(mode):
 			ops = append(ops, slOp{kind: "qr", client: clients[rng.IntN(2)], host: hosts[rng.IntN(len(hosts))]})
 		case x < 8:
 			// A request that obtained its filter earlier (possibly before a
@@ -670,6 +716,8 @@ func slStoreOpts(mode string, cached bool, capn int) storeOpts {
 		so.services = true
 	case "ss":
 		so.safe = true
+	case "ss2":
+		so.safe, so.yt = true, true
 	}
 
 	return so
@@ -686,8 +734,11 @@ func slApplyRefresh(s *store, mode string, op slOp, initial bool) {
 		}
 		lines = append(lines, "||never.invalid^")
 		s.writeServices(map[string][]string{"svc1": lines})
-	case "ss":
+	case "ss", "ss2":
 		s.writeList(string(filter.IDGeneralSafeSearch), rulesText(op.rules, op.ver))
+		if mode == "ss2" {
+			s.writeList(string(filter.IDYoutubeSafeSearch), rulesText(op.rules2, op.ver))
+		}
 	}
 	s.refresh(initial)
 }
@@ -698,6 +749,11 @@ func slConf(mode string) *filter.ConfigClient {
 		return clientConf(nil, []string{"rl1"}, nil, false, false, false)
 	case "svc":
 		return clientConf(nil, nil, []string{"svc1"}, false, false, false)
+	case "ss2":
+		cc := clientConf(nil, nil, nil, true, false, false)
+		cc.Parental.SafeSearchYouTubeEnabled = true
+
+		return cc
 	default:
 		return clientConf(nil, nil, nil, true, false, false)
 	}
@@ -751,7 +807,7 @@ func runSingleList(r *hlib.Result, m *hlib.Model, mode string, capn int, withCli
 					continue
 				}
 				ra = a.filterWith(heldFlt, newReq(op.host, op.qt, op.edns, p, op.client))
-				if mode != "ss" && heldAt != nRefresh {
+				if !isSS(mode) && heldAt != nRefresh {
 					// The filter object was replaced by a refresh: the in-flight
 					// request may still see the old list, and it must not leave
 					// anything behind for later requests.
@@ -765,13 +821,23 @@ func runSingleList(r *hlib.Result, m *hlib.Model, mode string, capn int, withCli
 			rb := b.filterReq(conf, newReq(op.host, op.qt, op.edns, p, op.client), true)
 			ob := obs{line: -1, tok: resTok(ra), canonA: resCanon(ra), canB: resCanon(rb)}
 			ob.line = len(lines)
-			if mode == "ss" {
-				// Direct evaluation: only A, AAAA and HTTPS questions are rewritten.
+			if isSS(mode) {
+				// Direct evaluation: only A, AAAA and HTTPS questions are rewritten;
+				// the general list is asked first, then the YouTube one.
 				ob.want = "none"
 				if op.qt == dns.TypeA || op.qt == dns.TypeAAAA || op.qt == dns.TypeHTTPS {
 					ob.want = evalRules(cur.rules, cur.ver, op.host, op.client, 2*int(op.qt))
+					if ob.want == "none" && mode == "ss2" {
+						ob.want = evalRules(cur.rules2, cur.ver, op.host, op.client, 2*int(op.qt))
+					}
 				}
-				lines = append(lines, fmt.Sprintf("ss q %s %s %d", op.client, op.host, op.qt))
+				if mode == "ss2" {
+					// Two filters with two caches: oracle only, the model driver has
+					// one rule-list instance.
+					ob.line = -1
+				} else {
+					lines = append(lines, fmt.Sprintf("ss q %s %s %d", op.client, op.host, op.qt))
+				}
 			} else {
 				ob.want = evalRules(cur.rules, cur.ver, op.host, op.client, 2*int(op.qt))
 				lines = append(lines, fmt.Sprintf("rl q %s %s %d", op.client, op.host, 2*int(op.qt)))
@@ -793,7 +859,7 @@ func runSingleList(r *hlib.Result, m *hlib.Model, mode string, capn int, withCli
 			s = append(s, op.String())
 		}
 
-		return map[string]any{"campaign": "single-list", "mode": mode, "cache_count": capn, "ops": s}
+		return withNote(map[string]any{"campaign": "single-list", "mode": mode, "cache_count": capn, "ops": s})
 	}
 	for _, ob := range seen {
 		if ob.tok == "none" {
